@@ -247,6 +247,10 @@ class OrderedCadence(Cadence):
 
     def __setitem__(self, i, v):
         self._check(v)
+        # Resolve the index the way list assignment does, so that the label 
+        # matches the slot and an invalid index leaves the frame untouched
+        if not -len(self) <= i < len(self):
+            raise IndexError("Cadence assignment index out of range")
         if i < 0:
             i = len(self) + i
         if "order_label" not in v.metadata:
@@ -255,8 +259,10 @@ class OrderedCadence(Cadence):
 
     def insert(self, i, v):
         self._check(v)
+        # list.insert clamps out-of-range positions; label the actual position
         if i < 0:
-            i = len(self) + i
+            i = max(len(self) + i, 0)
+        i = min(i, len(self))
         if "order_label" not in v.metadata:
             v.add_metadata({"order_label": self.order[i]})
         self.frames.insert(i, v)
